@@ -699,6 +699,7 @@ func (x *scanExec) step(in ssa.Instruction, st *sstate) bool {
 		st.env[call] = sval{kind: "token", tok: &stoken{items: []sitem{{kind: "blob", blob: st.nextBlob}}, typ: sval{kind: "unknown"}, opaque: true, blob: st.nextBlob,
 			line: sval{kind: "pos", pos: &spos{fn: "delegate"}}, col: sval{kind: "pos", pos: &spos{fn: "delegate"}}}}
 		st.trace = append(st.trace, "delegate")
+		st.moves++ // the delegate moved the scanner
 		return true
 	}
 	// helper taking the scanner and returning a string / nothing: inline
@@ -757,6 +758,7 @@ func (x *scanExec) inline(call *ssa.Call, g *ssa.Function, st *sstate) bool {
 	st.peek = 0
 	st.env[call] = sval{kind: "str", items: []sitem{{kind: "blob", blob: st.nextBlob}}, known: true}
 	st.trace = append(st.trace, "helper:"+g.Name())
+	st.moves++
 	return true
 }
 
